@@ -867,6 +867,7 @@ class World:
             specs["pel_registry"] = {"type": "registry"}
         self.host = PluginHost(specs, self.regdir)
         self.peltool = None
+        self.fresh_per_run = False
         self._saved_path = None
         self._saved_meta = None
 
@@ -894,7 +895,12 @@ class World:
         """purge + re-import inside the same world (used for the pristine twin)"""
         purge_modules()
         importlib.invalidate_caches()
-        self.peltool = importlib.import_module("pel.peltool.peltool")
+        err, saved_err = io.StringIO(), sys.stderr
+        sys.stderr = err
+        try:
+            self.peltool = importlib.import_module("pel.peltool.peltool")
+        finally:
+            sys.stderr = saved_err
 
     def in_pristine_modules(self, fn):
         """run fn() with a freshly imported module set (same environment),
@@ -958,6 +964,9 @@ class World:
             exit_flush=True, stdout_encoding="utf-8"):
         """argv: list of str where '@/x' is replaced by <root>/x."""
         real = [self.path(a[2:]) if a.startswith("@/") else (self.root if a == "@" else a) for a in argv]
+        if self.fresh_per_run:
+            # every CLI invocation is its own process: nothing survives from the previous one
+            self.fresh_modules()
         fs = self.fs
         fs.begin_op(order, faults, file_bufsize)
         out = SimStream(fs.ev, stdout_bufsize, "stdout", stdout_encoding)
